@@ -43,6 +43,17 @@ def _kw(call: ast.Call, name: str, pos: Optional[int] = None) -> Optional[ast.AS
     return None
 
 
+def _bare_host(v: ast.AST, facts: Dict[str, Any], param: str = 'hostname') -> Optional[str]:
+    """v denotes the host name the caller gave, as certificates carry it: the parameter itself when it is not a bracketed IPv6 literal on this path
+    (or not known to be one and never stripped: reported by C11.13), or the parameter with its brackets removed.  -> 'same' | 'stripped' | None"""
+    t = norm(v).replace(' ', '')
+    if t == param:
+        return 'same'
+    if t in ('%s[1:-1]' % param, "%s.strip('[]')" % param, "%s.lstrip('[').rstrip(']')" % param, "%s.removeprefix('[').removesuffix(']')" % param):
+        return 'stripped'
+    return None
+
+
 def run(ch: Checker) -> None:
     prog = ch.prog
     ce = ConstEval(prog)
@@ -53,6 +64,7 @@ def run(ch: Checker) -> None:
                      'only under verify_mode == CERT_NONE, otherwise `hostname is not None`; wrap_socket(server_hostname=<hostname param>)', 4)
     ch.rule('C11.3', 'sites that assign CERT_NONE / check_hostname False-capable values / create a bare SSLContext or an unverified context are exactly the frozen table', 5)
     ch.rule('C11.4', 'wrap_server returns True from every ssl error handler; intercept() returns before wrap_client when wrap_server failed; on_request_complete returns intercept()\'s result', 3)
+    ch.rule('C11.13', 'the name the upstream certificate is matched against is the host as certificates carry it: on every path to wrap_socket the brackets of an IPv6 literal were ruled out or removed (sibling agreement with new_socket_connection, which strips them before connecting, and get_ext_config, which strips them for the SAN)', 1)
     ch.rule('C11.12', 'the CONNECT host names the generated leaf through subjectAltName only: the subject handed to gen_public_key does not depend on request.host (commonName is capped at 64 characters, host names are not)', 1)
     ch.rule('C11.5', 'leaf generation: alt_subj_names = [text_(request.host)] reaches gen_public_key and sign_csr; sign_csr gets flags.ca_key_file / flags.ca_cert_file and puts them at -CAkey / -CA, '
                      'the extension file at -extfile; the cached-certificate test and the generation both happen inside `with self.lock`; client.wrap gets the generated path and the signing key', 5)
@@ -99,6 +111,8 @@ def run(ch: Checker) -> None:
     params = wr.params
     gw = cfg_of(wr, prog)     # with exception edges: a handler that rebuilds the context differently is a path too
     res: Dict[str, Optional[Tuple[str, List[str]]]] = {'ctx': None, 'vm': None, 'ch': None, 'sni': None}
+    bad13 = None
+    n13 = 0
     seen = {'ctx': 0, 'vm': 0, 'ch': 0, 'sni': 0}
     for p in fpaths(gw):
         ch.paths += 1
@@ -130,16 +144,27 @@ def run(ch: Checker) -> None:
                     elif v == 'False':
                         if not (none_mode and none_mode[-1] is True):
                             res['ch'] = ('ctx.check_hostname is switched off on a path where verify_mode == CERT_NONE was not established: the certificate chain is verified but not the name', p.describe())
-                    elif v.replace(' ', '') not in ('hostnameisnotNone', 'True'):
+                    elif v.replace(' ', '') not in ('hostnameisnotNone', 'True', 'hostname[1:-1]isnotNone', "hostname.strip('[]')isnotNone"):
                         res['ch'] = ('ctx.check_hostname is %s: whether the origin certificate\'s name is checked no longer depends only on a host name having been given '
                                      '(for some hosts the name check is silently dropped while the chain is still verified)' % v[:80], p.describe())
             for c in walk_no_nested(st):
                 if isinstance(c, ast.Call) and isinstance(c.func, ast.Attribute) and c.func.attr == 'wrap_socket':
                     seen['sni'] += 1
                     sn = _kw(c, 'server_hostname')
-                    v = norm(sym.value(sn, i)) if sn is not None else 'missing'
-                    if v != 'hostname':
-                        res['sni'] = ('wrap_socket(server_hostname=%s): the name the certificate is matched against is not the hostname argument itself' % v[:60], p.describe())
+                    vv = sym.value(sn, i) if sn is not None else ast.Constant(value='missing')
+                    v = norm(vv)
+                    form = _bare_host(vv, allfacts(p, i))
+                    if form is None:
+                        res['sni'] = ('wrap_socket(server_hostname=%s): the name the certificate is matched against is not the hostname argument (bare of the brackets of an IPv6 literal)' % v[:60], p.describe())
+                    # C11.13: a bracketed literal never reaches the TLS layer
+                    fd13 = allfacts(p, i)
+                    br = [val for k, val in fd13.items() if k.replace(' ', '') in ("hostname.startswith('[')", "hostname[0]=='['", "hostname[:1]=='['", "hostname.endswith(']')", "hostname[-1]==']'", "hostname[-1:]==']'")]
+                    n13 += 1
+                    if form == 'same' and not any(b_ is False for b_ in br) and fd13.get('hostname is None') is not True and fd13.get('hostname is not None') is not False:
+                        bad13 = ('the host name reaches ssl as server_hostname exactly as the caller wrote it, without its brackets having been ruled out or removed: for "CONNECT [::1]:443" / an https://[::1]/ upstream the '
+                                 'certificate is matched against "[::1]", which no certificate names, so every IPv6 literal host fails verification (new_socket_connection and get_ext_config do strip them)', p.describe())
+    ch.check(bad13 is None and n13 > 0, 'C11.13', wr, 'server_hostname free of brackets', 'an IPv6 literal is matched against certificates as the bare address (%d path(s))' % n13,
+             bad13[0] if bad13 else 'no wrap_socket call found', witness=bad13[1] if bad13 else None)
     labels = {'ctx': 'default SERVER_AUTH context with the given CA file', 'vm': 'verify_mode applied', 'ch': 'check_hostname policy', 'sni': 'server_hostname = hostname'}
     for k in ('ctx', 'vm', 'ch', 'sni'):
         ch.check(res[k] is None and seen[k] > 0, 'C11.2', wr, labels[k], labels[k], res[k][0] if res[k] else '%s: site not found' % labels[k], witness=res[k][1] if res[k] else None)
